@@ -360,7 +360,9 @@ class Check:
         vm = None
         if tier == "thorough" and getattr(mod, "VM_CROSSCHECK", False):
             import vmcheck
-            vm = vmcheck.crosscheck([r["case"] for r in results], [r["model"] for r in results])
+            # the cross-check needs the case as it was sent to the driver (run_cases applies model_case the same way)
+            mc = getattr(mod, "model_case", None)
+            vm = vmcheck.crosscheck([mc(r["case"]) if mc else r["case"] for r in results], [r["model"] for r in results], tag=pid)
             for (c, a, b) in vm["mismatches"]:
                 problems.append(("obligation", f"extraction cross-check: vm_compute and the extracted driver disagree on {c}: {a} vs {b}"))
         for extra in getattr(mod, "extra_checks", lambda seed, tier: [])(seed, tier):
@@ -503,6 +505,8 @@ class Check:
             ev["coverage"]["exhaustive_small_scope"] = {"cases": exhaustive_n, "space": getattr(mod, "EXHAUSTIVE_SPACE", ""), "exhaustive": True}
         if vm is not None:
             ev["coverage"]["extraction_crosscheck_vm_compute"] = {"cases": vm["checked"], "mismatches": len(vm["mismatches"])}
+            if set(vm.get("per_kind", {})) - {"m1"}:
+                ev["coverage"]["extraction_crosscheck_vm_compute"]["cases_per_kind"] = vm["per_kind"]
         if tier == "thorough":
             ev["coverage"]["coqchk_rc"] = info.get("coqchk_rc")
             ev["coverage"]["coqchk_s"] = info.get("coqchk_s")
